@@ -86,8 +86,8 @@ func decodeSubscription(k string, v []byte) (e Subscription, err error) {
 
 	// Decode the key
 	buffer := binary.ToBytes(k)
-	if len(buffer) < 16 {
-		return e, errInvalidKey
+	if len(buffer) < 16+4 {
+		return e, errInvalidKey // a subscription is for a channel: the ssid cannot be empty
 	}
 
 	e.Peer = binary.BigEndian.Uint64(buffer[0:8])
